@@ -462,8 +462,8 @@ void AspifTextOutput::writeDirectives() {
 			case Directive_t::Rule:
 				if (get<uint32_t>() != 0) { os_ << "{"; term = "}"; }
 				for (uint32_t n = get<uint32_t>(); n--; sep = !*term ? "|" : ";") { printName(os_ << sep, get<Atom_t>()); }
-				if (*sep) { os_ << term; sep = " :- "; }
-				else      { os_ << ":- "; }
+				if (*sep || *term) { os_ << term; sep = " :- "; } // an empty choice head is still a head: "{}"
+				else               { os_ << ":- "; }
 				term = ".";
 				switch (uint32_t bt = get<uint32_t>()) {
 					case Body_t::Normal:
